@@ -173,7 +173,7 @@ fn key_u64<K: 'static>(k: &K) -> u64 {
 struct Gate { permits: u64, committed: u64, open: bool }
 /// One-shot rendezvous inside `get_wide_column` (used by the two-thread scenarios).
 #[derive(Default)]
-struct ReadBlock { armed_key: Option<u64>, reached: bool, release: bool }
+struct ReadBlock { armed_key: Option<u64>, armed_scan: Option<u64>, reached: bool, release: bool }
 #[derive(Default)]
 struct KvInner {
     wide: Mutex<HashMap<(TypeId, TypeId, u64), AnyBox>>,
@@ -261,7 +261,8 @@ impl HarnessKv {
             if t0.elapsed() > Duration::from_secs(30) { panic!("harness: commit {n} did not happen (have {})", g.committed); }
         }
     }
-    fn arm_read_block(&self, key: u64) { *self.0.rb.lock().unwrap() = ReadBlock { armed_key: Some(key), reached: false, release: false }; }
+    fn arm_read_block(&self, key: u64) { *self.0.rb.lock().unwrap() = ReadBlock { armed_key: Some(key), armed_scan: None, reached: false, release: false }; }
+    fn arm_scan_block(&self, key: u64) { *self.0.rb.lock().unwrap() = ReadBlock { armed_key: None, armed_scan: Some(key), reached: false, release: false }; }
     fn wait_read_reached(&self) {
         let mut g = self.0.rb.lock().unwrap();
         let t0 = Instant::now();
@@ -299,6 +300,22 @@ impl KvDatabase for HarnessKv {
     fn scan_members<C: KeyOfSetColumn>(&self, key: &C::Key) -> Self::ScanMemberIterator<C> {
         self.0.scans.fetch_add(1, Ordering::SeqCst);
         let v: Vec<u64> = self.0.sets.lock().unwrap().get(&(TypeId::of::<C>(), key_u64(key))).map(|s| s.iter().copied().collect()).unwrap_or_default();
+        {
+            // optional rendezvous AFTER the scan snapshot has been taken (inside the set cache's fetch)
+            let k = key_u64(key);
+            let mut g = self.0.rb.lock().unwrap();
+            if g.armed_scan == Some(k) && TypeId::of::<C>() == TypeId::of::<SCol>() {
+                g.armed_scan = None;
+                g.reached = true;
+                self.0.rb_cv.notify_all();
+                let t0 = Instant::now();
+                while !g.release {
+                    let (g2, _) = self.0.rb_cv.wait_timeout(g, Duration::from_millis(100)).unwrap();
+                    g = g2;
+                    if t0.elapsed() > Duration::from_secs(60) { panic!("harness: blocked scan never released"); }
+                }
+            }
+        }
         fn conv<E: 'static>(x: u64) -> E {
             let b: Box<dyn Any> = Box::new(x);
             *b.downcast::<E>().expect("harness kv: element type")
@@ -844,6 +861,30 @@ fn scenario_fill_vs_write<S: SentinelCol>(cap: u64, remove: bool) -> (Option<u64
     (v1, after, if remove { None } else { Some(7) })
 }
 
+/// Set cache, reader vs writer on one key: a `get` of set 1 (store {1,2}, nothing cached) has taken its staging
+/// snapshot and scanned the store, and waits; another task inserts 9 (staged in the log; the set is not cached, so
+/// nothing else happens); the `get` then installs the in-memory set it built from its OLD snapshot.
+/// Returns (what the fetching get returned, what a later get returns, expected).
+fn scenario_set_fill_vs_insert<S: SentinelCol>(cap: u64, remove: bool) -> (BTreeSet<u64>, BTreeSet<u64>, BTreeSet<u64>) {
+    let kv = HarnessKv::default();
+    kv.apply(vec![KvOp::InsM(TypeId::of::<SCol>(), 1, 1), KvOp::InsM(TypeId::of::<SCol>(), 1, 2)]);
+    let mut env = Env::<S>::new(cap, kv.clone());
+    kv.arm_scan_block(1);
+    let setm = env.setm.clone();
+    let t1 = std::thread::spawn(move || {
+        let rt = tokio::runtime::Builder::new_current_thread().build().unwrap();
+        rt.block_on(setm.get(&HKey(1))).collect::<BTreeSet<u64>>()
+    });
+    kv.wait_read_reached();
+    env.begin();
+    { let b = env.open.as_mut().unwrap(); if remove { env.rt.block_on(env.setm.remove(&HKey(1), &2, b)); } else { env.rt.block_on(env.setm.insert(HKey(1), 9, b)); } }
+    kv.release_read();
+    let v1 = t1.join().unwrap();
+    let after: BTreeSet<u64> = env.rt.block_on(env.setm.get(&HKey(1))).collect();
+    env.shutdown();
+    (v1, after, if remove { [1u64].into_iter().collect() } else { [1u64, 2, 9].into_iter().collect() })
+}
+
 // ------------------------------------------------------------------------------------------------
 macro_rules! pick_sent { ($idx:expr, $f:ident) => { match $idx { 0 => $f::<Sent0>, 1 => $f::<Sent1>, 2 => $f::<Sent2>, 3 => $f::<Sent3>, 4 => $f::<Sent4>, _ => $f::<Sent5> } }; }
 fn main() {
@@ -876,7 +917,7 @@ fn main() {
         conc_note = format!("stale-fill runs={runs} stale={stale} {first}");
         println!("{conc_note}");
         if stale > 0 {
-            fails_json.push(format!("{{\"sig\":\"F9-stale-fill-two-threads\",\"desc\":{},\"case\":\"scenario stale-fill (run the harness with --stale-fill)\"}}",
+            fails_json.push(format!("{{\"sig\":\"wide-stale-fill-two-threads\",\"desc\":{},\"case\":\"scenario stale-fill (run the harness with --stale-fill)\"}}",
                 jstr(&format!("two threads: a cache fill whose store read precedes another task's write+commit+un-pin+evict installs the old value; {stale}/{runs} runs stale; {first}"))));
         }
     }
@@ -898,6 +939,26 @@ fn main() {
         if bad > 0 {
             fails_json.push(format!("{{\"sig\":\"fill-overwrote-pinned-write\",\"desc\":{},\"case\":\"scenario fill-vs-write (run the harness with --fill-vs-write)\"}}",
                 jstr(&format!("two threads: a cache fill that read the store before another task's (uncommitted, pinned) write overwrote or hid that write; {bad}/{runs} runs; {first}"))));
+        }
+    }
+
+    if a.rest.iter().any(|x| x == "--set-fill-vs-insert") {
+        let scen: fn(u64, bool) -> (BTreeSet<u64>, BTreeSet<u64>, BTreeSet<u64>) = pick_sent!(sidx, scenario_set_fill_vs_insert);
+        let (mut bad, mut runs) = (0, 0);
+        let mut first = String::new();
+        for cap in [1u64, 4, 16] { for remove in [false, true] {
+            let r = std::panic::catch_unwind(|| scen(cap, remove));
+            runs += 1;
+            match r {
+                Ok((t1, after, want)) => { if after != want { bad += 1; if first.is_empty() { first = format!("cap={cap} remove={remove}: fetching get returned {}, a later get returned {}, expected {}", fmt_set(&t1), fmt_set(&after), fmt_set(&want)); } } }
+                Err(_) => { bad += 1; if first.is_empty() { first = "scenario panicked".into(); } }
+            }
+        } }
+        conc_note.push_str(&format!(" set-fill-vs-insert runs={runs} stale={bad} {first}"));
+        println!("set-fill-vs-insert runs={runs} stale={bad} {first}");
+        if bad > 0 {
+            fails_json.push(format!("{{\"sig\":\"set-stale-fill-two-threads\",\"desc\":{},\"case\":\"scenario set-fill-vs-insert (run the harness with --set-fill-vs-insert)\"}}",
+                jstr(&format!("two threads, key-of-set cache: a get that took its staging snapshot before another task's insert/remove installs an in-memory set without that operation; {bad}/{runs} runs stale; {first}"))));
         }
     }
 
